@@ -59,7 +59,7 @@ theorem C16_label_step {ord : Order} (ho : OrderOK ord) (st st' : State) (w : WF
     (∀ y, st.σ y = .var y → st'.σ y = .var y ∨ ∃ m, st'.σ y = Term.num m) ∧
     (∀ y, (st'.dget y).isSome → (st.dget y).isSome) ∧
     (∀ p ∈ st'.store, p.2.isDiseq = false → ∃ q ∈ st.store, q.2 = p.2) := by
-  obtain ⟨_, _, _, d', _, k', m', u'⟩ := label_step ho w hi hz (fun y hy => .inl (hdk y hy)) k x h
+  obtain ⟨_, _, _, d', _, k', m', u', _⟩ := label_step ho w hi hz (fun y hy => .inl (hdk y hy)) k x h
   exact ⟨fun y hy => (d' y hy).elim id (fun f => f.elim), k'.numonly, m', fun p hp hd => (u' p hp hd).elim id (fun f => f.elim)⟩
 
 /-! Non-vacuity of the labelled-answer theorem: `x, y in 1..3, x + y = z, z in 4..4` then `3 == x`: propagation binds `y`
